@@ -192,8 +192,10 @@ def r3_narrowing_direction(ctx):
     fl = Flow(ip, through_named=True)
     ov = [(bi, t) for bi, t in ip.calls_to("types::types_overlap")]
     ctx.floor(R, "types_overlap calls in intersect_pair", len(ov), 1)
-    never_l = [l["i"] for l in ip.locals if l.get("name") == "never"]
-    a_l = [l["i"] for l in ip.locals if l.get("name") == "a" and l["i"] <= ip.mir["argc"]]
+    never_l = [t["dest"]["l"] for _b, t in ip.calls_to("Program::never")]
+    never_l += [l for l in Flow(ip).forward(set(never_l))]
+    a_l = [ip.param_by_type(lambda ty: ty == "usize", 0, "left operand")]
+    a_l += [l for l in Flow(ip).forward(set(a_l)) if ip.local_ty(l) == "usize"]
     for bi, t in ov:
         r = t["dest"]["l"]
         # blocks assigning _0 from `never` reachable right after the call
@@ -214,8 +216,8 @@ def r3_narrowing_direction(ctx):
     ctx.floor(R, "empty-difference returns in subtract_one", len(empties), 2)
     ic = [(bi, t) for bi, t in so.calls_to("types::is_compatible")]
     ctx.floor(R, "is_compatible calls in subtract_one", len(ic), 1)
-    a_p = [l["i"] for l in so.locals if l.get("name") == "a" and l["i"] <= so.mir["argc"]]
-    b_p = [l["i"] for l in so.locals if l.get("name") == "b" and l["i"] <= so.mir["argc"]]
+    a_p = [so.param_by_type(lambda ty: ty == "usize", 0, "minuend")]
+    b_p = [so.param_by_type(lambda ty: ty == "usize", 1, "subtrahend")]
     for bi, t in ic:
         c0, c1 = flo.canon_op(t["args"][0]), flo.canon_op(t["args"][1])
         order = bool(a_p and b_p) and c0 is not None and c1 is not None and c0[0] == a_p[0] and c1[0] == b_p[0]
